@@ -47,9 +47,9 @@ func (e *RealEnv) scalarOf(v *big.Int) *k256.Scalar {
 	return s
 }
 
-func (e *RealEnv) Field() algebra.PrimeField[*k256.Scalar]             { return k256.NewScalarField() }
+func (e *RealEnv) Field() algebra.PrimeField[*k256.Scalar]              { return k256.NewScalarField() }
 func (e *RealEnv) Group() algebra.PrimeGroup[*k256.Point, *k256.Scalar] { return k256.NewCurve() }
-func (e *RealEnv) Scalar(name string) *k256.Scalar                     { return e.scalarOf(e.value("in:" + name)) }
+func (e *RealEnv) Scalar(name string) *k256.Scalar                      { return e.scalarOf(e.value("in:" + name)) }
 func (e *RealEnv) Point(name string) *k256.Point {
 	return k256.NewCurve().ScalarBaseMul(e.scalarOf(e.value("in:" + name)))
 }
@@ -86,9 +86,9 @@ func (e *RealEnv) Check(id string, c bool, msg string) bool {
 	}
 	return c
 }
-func (e *RealEnv) Reach(string)    {}
-func (e *RealEnv) SetActor(string) {}
-func (e *RealEnv) Symbolic() bool  { return false }
+func (e *RealEnv) Reach(string)        {}
+func (e *RealEnv) SetActor(string)     {}
+func (e *RealEnv) Symbolic() bool      { return false }
 func (e *RealEnv) AssumeDrawsNonZero() {}
 
 type realAbort struct{ why string }
